@@ -163,6 +163,7 @@ class PropertyRun:
                 info["out_of_reach"] = str(e)
             except StaleContract as e:
                 self.stale.append(f"{c.key}: {e}")
+                info["out_of_reach"] = f"stale contract: {e}"
             except Exception as e:  # noqa
                 self.checker_errors.append(f"{c.key}: engine crash {e!r}\n{traceback.format_exc()[-1500:]}")
             self.fn_info.append(info)
